@@ -27,6 +27,9 @@ pub mod xyy;
 mod matrices;
 mod transfer;
 
+#[cfg(lymui_verif)]
+pub mod verif_hooks;
+
 // Constant
 // Illuminent for D65 2°
 const D65: [f64; 3] = [0.95047, 1.0, 1.08883];
